@@ -216,6 +216,7 @@ type verifSupervisor struct {
 	runtimeScript func(p *verifProc)
 	extScript     func(p *verifProc, base string)
 	asyncEvents   bool
+	neverReport   string // the exit of this process is never reported (unreapable)
 	latePhase     int
 	lateUsed      bool
 }
@@ -257,6 +258,9 @@ func (s *verifSupervisor) exit(p *verifProc, status int32, signo int32) {
 	} else {
 		ev.Event.ExitStatus = &status
 	}
+	if name == s.neverReport {
+		return
+	}
 	if s.asyncEvents {
 		// like the local supervisor: termination becomes visible to Kill first, the event is
 		// delivered by a goroutine of its own and may be handled late
@@ -288,6 +292,8 @@ func (s *verifSupervisor) exit(p *verifProc, status int32, signo int32) {
 	}
 	s.events <- ev
 }
+
+func (w *verifWorld) CountWhat(what string) int { return w.countWhat(what) }
 
 func (w *verifWorld) countWhat(what string) int {
 	n := 0
@@ -385,6 +391,11 @@ type verifWorld struct {
 	lastBody                                               map[string]string
 	rtBodies, rtArns, rtResponses, rtStatuses, rtDeadlines []string
 	slowInit                                               bool
+	holdWho                                                string
+	holding                                                bool
+	onHold                                                 func(who, phase string)
+	extIDs                                                 []string // identifiers handed out to extensions, in order
+	extReportsOnShutdown                                   bool
 	rtPlan                                                 [][]int
 	times                                                  map[int]int64
 	rtStarted                                              int
@@ -599,6 +610,9 @@ func (w *verifWorld) extRegister(who, name string, events []string) *verifRec {
 	w.note(who, "register-issued", name)
 	rec := w.call("/extension/register", "POST", h, body)
 	w.note(who, "register-returned", fmt.Sprint(rec.status))
+	if rec.status == 200 {
+		w.extIDs = append(w.extIDs, rec.hdr.Get("Lambda-Extension-Identifier"))
+	}
 	return rec
 }
 
@@ -769,7 +783,18 @@ func (w *verifWorld) RuntimeResponses() []string          { return w.rtResponses
 func (w *verifWorld) Statuses() []string                  { return w.rtStatuses }
 func (w *verifWorld) Deadlines() []string                 { return w.rtDeadlines }
 func (w *verifWorld) SetSlowInit(b bool)                  { w.slowInit = b }
-func (w *verifWorld) SetAsyncExitEvents(b bool)           { w.sup.asyncEvents = b }
+func (w *verifWorld) ExtIDs() []string                    { return w.extIDs }
+func (w *verifWorld) SetExtReportsOnShutdown(b bool)      { w.extReportsOnShutdown = b }
+
+// StaleExtNext / StaleExtExitError: requests carrying the identifier of an extension of an
+// earlier generation (the process is gone; the request is "in the network")
+func (w *verifWorld) StaleExtNext(id string) int {
+	return w.extNext("stale-extension", id).status
+}
+func (w *verifWorld) StaleExtExitError(id string) int {
+	return w.extExitError("stale-extension", id, "Extension.Stale").status
+}
+func (w *verifWorld) SetAsyncExitEvents(b bool) { w.sup.asyncEvents = b }
 
 // SetLateExitPhase: the exit notification of the first process that is SIGKILLed is delivered
 // only when the next invocation has begun (1), has reached its runtime (2), or has ended (3).
@@ -903,7 +928,30 @@ func (w *verifWorld) plannedRuntimeK() func(p *verifProc, k int) {
 // ---------------------------------------------------------------------------
 // C15: grammar and truthfulness of the platform lifecycle events recorded so far
 
+// CheckInitBarrier: in EVERY generation (also after resets) the runtime process is started only
+// after every external extension launched in that generation has registered (C03 over histories).
+func (w *verifWorld) CheckInitBarrier() {
+	for _, e := range w.log {
+		if e.who != "supervisor" || e.what != "exec" || !strings.HasPrefix(e.arg, "runtime-") {
+			continue
+		}
+		gen := e.arg[len("runtime-"):strings.Index(e.arg, "|")]
+		for _, x := range w.log {
+			if x.who != "supervisor" || x.what != "exec" || !strings.HasPrefix(x.arg, "extension-") {
+				continue
+			}
+			name := x.arg[:strings.Index(x.arg, "|")]
+			if !strings.HasSuffix(name, "-"+gen) {
+				continue
+			}
+			reg := w.first(name, "register-returned", "200")
+			verifAssert(reg > 0 && reg < e.seq, "in every generation the runtime is started only after every launched external extension has registered")
+		}
+	}
+}
+
 func (w *verifWorld) CheckEventGrammar() {
+	w.CheckInitBarrier()
 	inInit := false
 	initPhase := ""
 	nRtDone := 0
